@@ -8,10 +8,10 @@ Value-stack discipline of the evaluator machine M4 (helper definitions and lemma
   iterees, scrutinees, initialisers are USED; in a block every statement except the last is UNUSED and
   the last is used iff the block's value is; loop bodies are unused blocks; an `if` without `else`
   has unused branches; a parenthesised expression passes its own flag to the inner expression.
-  The Bool parameter `b` says "this node is in statement position of the body of a running loop whose
-  value is unused, reached through unused `if`/`match` statements only": only there may `break` /
-  `continue` occur.  Everywhere else (operand position; loops whose value is used; outside loops)
-  they are excluded.
+  The Bool parameter `b` says "this node is in statement position of the body of a running loop
+  (whose own value may be used or not), reached through unused `if`/`match` statements only": only
+  there may `break` / `continue` occur.  Everywhere else (operand position; outside loops) they are
+  excluded.
 * `Bal K V`: the pending entries `K` (top first) applied to the value stack `V` (top first) never
   underflow: defined by recursion on `K`; an entry consumes `cons` values, needs a typed slot
   (`entryOK`: the `Int` index of a running `for`), and leaves `prod` values of unknown content.
@@ -41,8 +41,8 @@ def okE (b : Bool) : Expr → Bool
   | .update _ _ _ _ e => e.used && okE false e
   | .ifE _ u c thn none => c.used && okE false c && okBlock (b && !u) false thn
   | .ifE _ u c thn (some eb) => c.used && okE false c && okBlock (b && !u) u thn && okBlock (b && !u) u eb
-  | .whileE _ u c body => c.used && okE false c && okBlock (!u) false body
-  | .forE _ u _ it body => it.used && okE false it && okBlock (!u) false body
+  | .whileE _ u c body => c.used && okE false c && okBlock true false body
+  | .forE _ u _ it body => it.used && okE false it && okBlock true false body
   | .matchE _ u sc cases => sc.used && okE false sc && okCases (b && !u) u cases
   | .ret _ _ none => true
   | .ret _ _ (some e) => e.used && okE false e
@@ -107,13 +107,13 @@ def Bal : List (St × Expr) → List Value → Prop
     (retDone st e = true ∨
       (if prod st e then ∀ v, Bal K (v :: V.drop (cons st e)) else Bal K (V.drop (cons st e))))
 
-/-- the continuation `K` is the rest of the body of a running loop whose value is unused -/
+/-- the continuation `K` is the rest of the body of a running loop (statement position) -/
 def loopCtx : List (St × Expr) → Bool
   | [] => false
   | (st, e) :: K =>
     match st, e with
-    | .PD, .whileE _ u _ _ => !u
-    | .PD, .forE _ u _ _ _ => !u
+    | .PD, .whileE .. => true
+    | .PD, .forE .. => true
     | .E, .ifE _ u _ _ _ => !u && loopCtx K
     | .E, .matchE _ u _ _ => !u && loopCtx K
     | .N, e => !e.used && loopCtx K
@@ -878,8 +878,8 @@ theorem dispatch_disc_while (p : Program) (f : Frame) (st : St) (id : Nat) (u : 
       all_goals first
         | trivial
         | (simp only [DiscAfter]
-           exact ⟨Bal_evalBlock (!u) false _ body hok.2 (by simp only [Frame.pushE, Bal, cons, prod, retDone, entryOK]; cases u <;> simp_all),
-                  KOK_evalBlock (!u) false _ body hok.2 (hKst .PD) (by intro h; simp at h; simp [Frame.pushE, loopCtx, h])⟩)
+           exact ⟨Bal_evalBlock true false _ body hok.2 (by simp only [Frame.pushE, Bal, cons, prod, retDone, entryOK]; cases u <;> simp_all),
+                  KOK_evalBlock true false _ body hok.2 (hKst .PD) (by intro h; simp [Frame.pushE, loopCtx])⟩)
         | exact pushVIf_disc _ _ _ (by simp only [Frame.pushE, Bal, cons, prod, retDone, entryOK]; cases u <;> simp_all) (hKst .E)
     · rename_i hv; simp [hv] at hB
 
@@ -929,8 +929,8 @@ theorem dispatch_disc_for (p : Program) (f : Frame) (st : St) (id : Nat) (u : Bo
         | trivial
         | exact pushVIf_disc _ _ _ (by simp only [Frame.pushE, Bal, cons, prod, retDone, entryOK]; cases u <;> simp_all) (hKst .E)
         | (simp only [DiscAfter]
-           exact ⟨Bal_evalBlock (!u) false _ body hok.2 (by simp only [Frame.pushE, Frame.pushV, Bal, cons, prod, retDone, entryOK]; cases u <;> simp_all [isInt]),
-                  KOK_evalBlock (!u) false _ body hok.2 (hKst .PD) (by intro h; simp at h; simp [Frame.pushE, Frame.pushV, loopCtx, h])⟩)
+           exact ⟨Bal_evalBlock true false _ body hok.2 (by simp only [Frame.pushE, Frame.pushV, Bal, cons, prod, retDone, entryOK]; cases u <;> simp_all [isInt]),
+                  KOK_evalBlock true false _ body hok.2 (hKst .PD) (by intro h; simp [Frame.pushE, Frame.pushV, loopCtx])⟩)
         | (have := List.getElem?_eq_none_iff.mp ‹_[_]? = none›; omega)
     · rename_i hv
       simp at hB
@@ -942,7 +942,8 @@ def headLoopUsed : List (St × Expr) → Bool
 
 theorem breakLoop_disc : ∀ (K : List (St × Expr)) (V : List Value) (blocks : List Block),
     loopCtx K = true → KOK K → Bal K V → 1 + C06.owners K ≤ blocks.length →
-    ∃ K' V' bs', evalBreakLoop K V blocks = some (K', V', bs') ∧ Bal K' V' ∧ KOK K' ∧ headLoopUsed K' = false
+    ∃ K' V' bs', evalBreakLoop K V blocks = some (K', V', bs') ∧
+      (if headLoopUsed K' then ∀ v, Bal K' (v :: V') else Bal K' V') ∧ KOK K'
   | [], V, blocks, hl, _, _, _ => by simp [loopCtx] at hl
   | (st, e) :: rest, V, blocks, hl, hK, hB, hblk => by
     have ih := breakLoop_disc rest
@@ -960,22 +961,20 @@ theorem breakLoop_disc : ∀ (K : List (St × Expr)) (V : List Value) (blocks : 
     case PD =>
       cases e <;> simp [loopCtx] at hl
       case whileE id u c body =>
-        subst hl
         simp [C06.owners, C06.owns] at hblk
         rcases blocks with _ | ⟨a, _ | ⟨b2, r⟩⟩
         · simp at hblk
         · simp at hblk; omega
-        · refine ⟨(St.E, .whileE id false c body) :: rest, V, b2 :: r, by simp [evalBreakLoop, popBlocks1], ?_,
-            ⟨⟨b, hok, hb⟩, hKK⟩, by simp [headLoopUsed, Expr.used]⟩
-          simp [Bal, cons, prod, retDone, entryOK] at hB ⊢
-          exact hB
+        · refine ⟨(St.E, .whileE id u c body) :: rest, V, b2 :: r, by simp [evalBreakLoop, popBlocks1], ?_,
+            ⟨⟨b, hok, hb⟩, hKK⟩⟩
+          simp [Bal, cons, prod, retDone, entryOK] at hB
+          cases u <;> simp_all [headLoopUsed, Expr.isLoop, Expr.used, Bal, cons, prod, retDone, entryOK]
       case forE id u d it body =>
-        subst hl
         rcases V with _ | ⟨v1, _ | ⟨v2, vals'⟩⟩ <;> simp [Bal, cons, prod, retDone, entryOK] at hB
-        refine ⟨(St.E, .forE id false d it body) :: rest, vals', blocks, by simp [evalBreakLoop], ?_,
-          ⟨⟨b, hok, hb⟩, hKK⟩, by simp [headLoopUsed, Expr.used]⟩
-        simp [Bal, cons, prod, retDone, entryOK]
-        exact hB.2
+        refine ⟨(St.E, .forE id u d it body) :: rest, vals', blocks, by simp [evalBreakLoop], ?_,
+          ⟨⟨b, hok, hb⟩, hKK⟩⟩
+        have hB2 := hB.2
+        cases u <;> simp_all [headLoopUsed, Expr.isLoop, Expr.used, Bal, cons, prod, retDone, entryOK]
     case E =>
       cases e <;> simp [loopCtx] at hl
       all_goals (
@@ -1032,16 +1031,15 @@ theorem dispatch_disc_brk (p : Program) (f : Frame) (st : St) (id : Nat) (u : Bo
   have hown : C06.owners ((st, .brk id false) :: f.exprs) = C06.owners f.exprs := by
     cases st <;> simp [C06.owners, C06.owns]
   rw [hown] at hblk
-  obtain ⟨K', V', bs', he, hB', hK', hH⟩ := breakLoop_disc f.exprs f.values f.blocks (hb rfl) hKK hB hblk
+  obtain ⟨K', V', bs', he, hB', hK'⟩ := breakLoop_disc f.exprs f.values f.blocks (hb rfl) hKK hB hblk
   unfold dispatch
   simp only [he]
   rcases K' with _ | ⟨⟨st', l⟩, K''⟩
-  · simp [DiscAfter, Frame.pushVIf]
+  · simp [headLoopUsed] at hB'
+    simp [DiscAfter, Frame.pushVIf]
     exact ⟨hB', hK'⟩
-  · simp only [headLoopUsed] at hH
-    simp only [hH, Frame.pushVIf]
-    simp [DiscAfter]
-    exact ⟨hB', hK'⟩
+  · simp only [headLoopUsed] at hB'
+    exact pushVIf_disc _ _ _ (by simpa using hB') (by simpa using hK')
 
 theorem dispatch_disc_cont (p : Program) (f : Frame) (st : St) (id : Nat) (u : Bool)
     (hB : Bal ((st, .cont id u) :: f.exprs) f.values) (hK : KOK ((st, .cont id u) :: f.exprs))
